@@ -2,7 +2,7 @@
 exports are the `link.wasm.exports` entries ("mbtName:core name") of the generated gen/moon.pkg.json together with
 the `pub fn mbtName(..) -> R` definitions of that package (for the signature)."""
 import re, json
-from c13_common import mk, line_of, count_word, text_files, split_params
+from c13_common import mk, line_of, word_counts, text_files, split_params, mark_referenced
 
 IMPORT = re.compile(r'^(?:pub\s+)?(?:extern\s+"wasm"\s+)?fn\s+(?P<f>[A-Za-z_][A-Za-z0-9_]*)\s*\((?P<p>[^)]*)\)[ \t]*(?:->[ \t]*(?P<r>[^=\n{]+?))?[ \t]*=[ \t]*"(?P<m>[^"]*)"[ \t]+"(?P<n>[^"]*)"', re.M)
 FN = re.compile(r'^pub\s+fn\s+(?P<f>[A-Za-z_][A-Za-z0-9_]*)\s*\((?P<p>[^)]*)\)\s*(?:->\s*(?P<r>[^{]+?))?\s*\{', re.M)
@@ -23,13 +23,15 @@ def sig_of(params, ret):
 def scrape(files):
     out = []
     mbt = text_files(files, [".mbt"])
+    wcs = {}
     for fn, t in mbt.items():
         for m in IMPORT.finditer(t):
             d = fn.rsplit("/", 1)[0] if "/" in fn else ""
-            pkg = [tt for nn, tt in mbt.items() if (nn.rsplit("/", 1)[0] if "/" in nn else "") == d]
-            ref = count_word(m.group("f"), pkg) > 1
+            if d not in wcs:
+                wcs[d] = word_counts(tt for nn, tt in mbt.items() if (nn.rsplit("/", 1)[0] if "/" in nn else "") == d)
             out.append(mk("I", m.group("m"), m.group("n"), sig_of(m.group("p"), m.group("r")), m.group("f"), fn,
-                          line_of(t, m.start()), ref))
+                          line_of(t, m.start())))
+            out[-1]["_scope"] = d
     for fn, t in files.items():
         if not fn.endswith("moon.pkg.json") or not isinstance(t, str):
             continue
@@ -52,4 +54,4 @@ def scrape(files):
             ident, name = e.split(":", 1)
             sig, gn, ln = defs.get(ident, ("?", fn, 0))
             out.append(mk("E", "", name, sig, ident, gn, ln))
-    return out
+    return mark_referenced(out, wcs)
